@@ -21,6 +21,8 @@ def jobs(tier):
                                functions=PUTVAR_FUNCS, bounds="ndims=%d, count<=2 per dimension, nprocs<=4, offsets < 2^40" % nd,
                                assumptions=STUB_NOTE + ["the valid rank's request was accepted by the dispatcher's checker (C15.a)"],
                                findings=["C08_zero_req_recvar"] if rec else []))
+    from props.C16 import fillrec_jobs
+    out += fillrec_jobs(tier, 'C08.c') + fillrec_jobs(tier, 'C08.c', inject=True)
     return out
 
 
